@@ -51,10 +51,10 @@ func main() {
 	}
 	selfTest(r)
 	if os.Getenv("C02_SKIP_A") == "" {
-		layerA(r, r.N(16, 1200), r.N(100, 400), r.N(44, 100))
+		layerA(r, r.N(16, 240), r.N(100, 400), r.N(44, 100))
 	}
 	if os.Getenv("C02_SKIP_B") == "" {
-		layerB(r, r.N(120, 6000))
+		layerB(r, r.N(120, 1500))
 	}
 
 	for e := 0; e < nEntries; e++ {
